@@ -21,7 +21,8 @@ func init() {
 			"R3 reads: digest-addressed reads go through the first-success helpers with a literal calling the same method with the same arguments; tag reads consult both members, report a success from two successes only under equality of the two digests (a conflict is an error, never a silent choice) and close the reader that is not returned; " +
 			"R4 listings go through mergeIter (sorted, de-duplicated: C05.R2), which forgives a member's name-unknown by clearing that same member's error, not the other's. " +
 			"R5 the sequential read returns the first member's answer only when it succeeded; R6 a helper that cancels the member's context before returning is not used for answers that are still to be read (BlobReader). " +
-			"R4b the merged listing is sorted by the unifier itself.",
+			"R4b the merged listing is sorted by the unifier itself. " +
+			"R0 the unifier holds its two members in two different fields.",
 		NotDecided: "observable equality of the two members after arbitrary write histories, and equality of results of the two read policies on values, are not decided.",
 		Technique:  "static analysis: delegation/fan-out shape on SSA, dominance of both-succeeded conditions, phi-edge pairing in mergeIter",
 	})
